@@ -845,7 +845,7 @@ func (vc *VC) scriptNeed(o *Obligation, wantModel bool) (string, map[string]bool
 	}
 	for i := 0; i < o.Cut; i++ {
 		if used[i] {
-			if o.Kind == "cover" && (strings.Contains(vc.assumes[i].Body, "(forall ") || strings.Contains(vc.assumes[i].Body, "(exists ")) {
+			if o.Kind == "cover" && !strings.Contains(o.Name, "/cover/path:") && (strings.Contains(vc.assumes[i].Body, "(forall ") || strings.Contains(vc.assumes[i].Body, "(exists ")) {
 				continue // cover queries check the quantifier-free part of the assumptions
 			}
 			fmt.Fprintf(&b, "(assert %s) ; %s\n", sImp(vc.assumes[i].Guard, vc.assumes[i].Body), vc.assumes[i].Why)
